@@ -715,6 +715,7 @@ int mt_new_child(void)
 int mt_chld_thr = -1;
 void (*mt_kill_hook)(int pid, int sig);
 void (*mt_fork_hook)(int pid);
+int (*mt_reap_hold)(int pid);		/* wait4 does not report this child's changes yet */
 
 void mt_child_status(int pid, int status)
 {
@@ -772,7 +773,7 @@ pid_t __wrap_wait4(pid_t pid, int *status, int options, struct rusage *ru)
 		if (child[i].reaped)
 			continue;
 		live++;
-		if (child[i].nq > 0) {
+		if (child[i].nq > 0 && !(mt_reap_hold != NULL && mt_reap_hold(child[i].pid))) {
 			int st = child[i].q[0];
 
 			memmove(&child[i].q[0], &child[i].q[1], (child[i].nq - 1) * sizeof(int));
@@ -843,4 +844,14 @@ int mt_child_reaped(int pid)
 		if (child[i].pid == pid)
 			return child[i].reaped;
 	return 1;
+}
+
+int mt_child_has_pending(int pid)
+{
+	int i;
+
+	for (i = 0; i < nchild; i++)
+		if (child[i].pid == pid)
+			return !child[i].reaped && child[i].nq > 0;
+	return 0;
 }
